@@ -326,12 +326,20 @@ def part_b_routestat(sh, rng, seed):
 
 
 def plan(tier, seed):
-    return [{'label': 'rand-%d' % i, 'index': i, 'a': 32 if tier == 'quick' else 3200, 'b': 700 if tier == 'quick' else 125000,
-             'timeout': 7200} for i in range(NSHARDS)]
+    specs = [{'label': 'rand-%d' % i, 'index': i, 'a': 32 if tier == 'quick' else 3200, 'b': 700 if tier == 'quick' else 125000,
+              'timeout': 7200} for i in range(NSHARDS)]
+    # the default 16 384-slot store, without the per-call invariant (it copies the store on every call)
+    specs += [{'label': 'default-cap-%d' % i, 'index': i, 'kind': 'default-cap', 'n': 2 if tier == 'quick' else 40, 'timeout': 7200}
+              for i in range(2)]
+    return specs
 
 
 def run_shard(sh, spec):
     rng = Rng(spec['seed'], PROPERTY, spec['label'])
+    if spec.get('kind') == 'default-cap':
+        for _ in range(spec['n']):
+            part_b_history(sh, rng, rng.randrange(1 << 30), default_cap=True)
+        return
     install_contract()
     for _ in range(spec['a']):
         part_a_history(sh, rng, rng.randint(5, 60))
@@ -339,8 +347,6 @@ def run_shard(sh, spec):
         part_b_history(sh, rng, rng.randrange(1 << 30))
     for i in range(20):
         part_b_routestat(sh, rng, rng.randrange(1 << 30))
-    if spec['index'] < 2:
-        part_b_history(sh, rng, rng.randrange(1 << 30), default_cap=True)
     sh.hit('B:invariant-evaluations', _contract['evaluations'])
     sh.notes['contract'] = {'library': _contract.get('lib'), 'evaluations': _contract['evaluations'],
                             'attribute-unavailable': _contract['unavailable']}
